@@ -346,6 +346,9 @@ def nodes_abstract(g, nodes, pn, files):
             args = [parts_abstract(g, [p for p in a if p[0] != "L"], pn) for a in nd[2]]
             out.append(pre + "  %s%s" % (nd[1], "(%s)" % ", ".join(args) if args else ""))
         elif k == "repeat":
+            # the copy made by .repeat starts at the location counter of the directive: keep it aligned so that no
+            # padding of the first instruction is part of the copied range (known finding C09-repeat-pad otherwise)
+            out.append("  .align 64")
             out.append(".repeat %d" % nd[1])
             out.extend(nodes_abstract(g, nd[2], pn, files))
             out.append(".endr")
@@ -376,6 +379,7 @@ def nodes_expanded(g, nodes, pvals, depth=0, info=None):
             out.extend(nodes_expanded(g, body, args, depth + 1, info))
         elif k == "repeat":
             body = nodes_expanded(g, nd[2], pvals, depth, info)
+            out.append("  .align 64")
             for _ in range(nd[1]):
                 out.extend(body)
             if info is not None:
@@ -547,7 +551,7 @@ def run(tier, seed, shard, nshards):
                     ck.compare(a, [], e)
         except Violation as v:
             s.violations.append(v.payload)
-        n = 500 if tier == "quick" else 10000
+        n = 1500 if tier == "quick" else 10000
         hyp_run(test, program(pools), n, shard_seed(seed, shard, "c09"), s)
     finally:
         w.close()
